@@ -300,18 +300,18 @@ def _behaviour(text):
     return out
 
 
-def intended_text(code, text):
+def intended_text(code, text, lineno=None):
     """The program the fix is meant to produce, as far as behaviour goes: for missing_f the string
-    literal of the reported line becomes an f-string; the other fixes keep the behaviour."""
+    literal on the reported line becomes an f-string; the other fixes keep the behaviour."""
     if code != "missing_f":
         return text
     out = []
-    for l in text.split("\n"):
-        st = l.lstrip()
-        if st.startswith("s") and " = '" in l and "{" in l:
-            l = l.replace(" = '", " = f'", 1)
-        elif st.startswith("s") and ' = "' in l and "{" in l:
-            l = l.replace(' = "', ' = f"', 1)
+    for i, l in enumerate(text.split("\n"), 1):
+        if lineno is None or i == lineno:
+            if " = '" in l and "{" in l:
+                l = l.replace(" = '", " = f'", 1)
+            elif ' = "' in l and "{" in l:
+                l = l.replace(' = "', ' = f"', 1)
         out.append(l)
     return "\n".join(out)
 
@@ -627,7 +627,7 @@ def run(tier: str, replay: str | None = None):
                     extra = {k: v for k, v in (ca - cb).items() if not (code == "unused_variable" and k[0] == "unused_variable")}
                     if extra:
                         problems.append(f"new diagnostics after the fix: {sorted(extra)}")
-                want = behaviour(intended_text(code, text))
+                want = behaviour(intended_text(code, text, before[0][1] if before else None))
                 got = behaviour(new)
                 if got != want:
                     problems.append(f"behaviour is not the intended one: expected {want}, got {got}")
